@@ -240,3 +240,12 @@ Definition bit_of_alive (al : N -> dom -> bool) (g : group) (d : dom) : bool :=
 Definition groups_disjoint (cfg : config) : Prop :=
   forall i j gi gj x, i <> j -> nth_error (c_groups cfg) i = Some gi -> nth_error (c_groups cfg) j = Some gj ->
     In x (map fst (g_members gi)) -> ~ In x (map fst (g_members gj)).
+
+(* the key function of the code (constants from the source) is the layout the kernel reads, for every outbound id *)
+Lemma C16_slot_layout_proof : forall o d, conn_key o d = spec_slot o d.
+Proof.
+  intros o d. unfold conn_key, spec_slot, conn_slots_per_domain, conn_domains, conn_dom_tcp, conn_dom_dnsudp, conn_dom_dataudp.
+  destruct d; lia.
+Qed.
+Lemma C16_slot_injective_proof : forall o d o' d', spec_slot o d = spec_slot o' d' -> o = o' /\ d = d'.
+Proof. intros o d o' d'. unfold spec_slot. destruct d, d'; intros H; split; try reflexivity; lia. Qed.
